@@ -139,7 +139,11 @@ def opPwEval (j : Json) : Except String Json := do
   let thr ← (← jArr (← field j "thresholds")).mapM jExt
   let rates ← (← jArr (← field j "rates")).mapM fun r => do (← jArr r).mapM jRat
   let s : Piecewise.Schedule := { thresholds := thr, rates := rates, intercepts := ← rats j "intercepts" }
-  pure (Json.mkObj [("ok", oRats ((← rats j "x").map (Piecewise.eval s)))])
+  match j.getObjVal? "mult" with
+  | .ok (.str _) => do
+    let m ← rat j "mult"
+    pure (Json.mkObj [("ok", oRats ((← rats j "x").map (Piecewise.evalMul s m)))])
+  | _ => pure (Json.mkObj [("ok", oRats ((← rats j "x").map (Piecewise.eval s)))])
 
 def jLevel (s : String) : Except String Levels.Level :=
   match Levels.Level.ofString? s with
